@@ -116,6 +116,29 @@ func C10Base(t *rapid.T) *world.Scenario {
 			}
 		}
 	}
+	// a background validation whose entry disappears while it waits for the origin (an unsafe
+	// request invalidates it), answered by a failure - with the request allowing stale-if-error
+	var steps []world.Step
+	for i, st := range sc.Steps {
+		steps = append(steps, st)
+		if st.Op == "req" && st.Req.Bg != nil && st.Req.Bg.LatencyNs > 0 && len(st.Req.Header) <= 1 && Pct(t, "vanish"+itoa(int64(i)), 25) {
+			hasCC := false
+			for _, kv := range st.Req.Header {
+				if kv[0] == "Cache-Control" {
+					hasCC = true
+				}
+			}
+			if !hasCC {
+				st.Req.Header = append(st.Req.Header, H("Cache-Control", "stale-if-error=60"))
+			}
+			bg := world.Reply{Kind: Pick(t, "vanishk"+itoa(int64(i)), "resp", "resp", "err"), Status: Pick(t, "vanishst"+itoa(int64(i)), 500, 503, 200, 304), LatencyNs: st.Req.Bg.LatencyNs,
+				Body: world.Body{Len: 10}, Header: [][2]string{H("Date", "$T+0")}}
+			st.Req.Bg = &bg
+			steps = append(steps, ReqStep(&world.Req{Method: Pick(t, "vanishm"+itoa(int64(i)), "POST", "DELETE", "PUT"), URL: st.Req.URL,
+				Uncond: world.Reply{Kind: "resp", Status: 204, Header: [][2]string{H("Date", "$T+0")}}}))
+		}
+	}
+	sc.Steps = steps
 	// hosts of every form a Go client can express
 	if Pct(t, "oddhost", 6) {
 		host := Pick(t, "oddhostv", "[fe80::1%25eth0]:8080", "[fe80::1%25eth0]", "[::1]", "A.TEST.", "caf\xe9.test", "127.0.0.1:0")
